@@ -217,7 +217,11 @@ pub fn case<G: CurveTag>(bytes: &[u8], col: &mut Collector, cmax: usize) -> Resu
     let roundtrip_at = if ch.chance(90) { Some(ch.below(nsteps + 1)) } else { None };
     // the object is overwritten in place (`clone_from`) with a freshly made one of another size
     let clone_from_at: Option<(usize, usize)> = if ch.chance(50) { Some((ch.below(nsteps + 1), ch.below(cmax / 2 + 1))) } else { None };
-    let desc = |s: String| json!({"curve": G::CURVE.name(), "new": [c0, parties], "increase_capacity": steps, "roundtrip_after_step": roundtrip_at, "clone_from_after_step": clone_from_at, "at": s});
+    // the caller narrows the object to its first p' parties by lowering the public field; later
+    // increases then concern those parties only
+    let lower_at: Option<(usize, usize)> = if parties >= 2 && clone_from_at.is_none() && ch.chance(36) { Some((ch.below(nsteps + 1), 1 + ch.below(parties - 1))) } else { None };
+    let desc = |s: String| json!({"curve": G::CURVE.name(), "new": [c0, parties], "increase_capacity": steps, "roundtrip_after_step": roundtrip_at, "clone_from_after_step": clone_from_at, "party_capacity_lowered_after_step": lower_at, "at": s});
+    let mut parties = parties;
     let mut gens = match guarded(|| BulletproofGens::<G>::new(c0, parties)) {
         Ok(g) => g,
         Err(p) => return Err(Failure::new("C12:new-panic", format!("BulletproofGens::new({}, {}) panicked: {}", c0, parties, p), desc("new".into()))),
@@ -269,6 +273,13 @@ pub fn case<G: CurveTag>(bytes: &[u8], col: &mut Collector, cmax: usize) -> Resu
                     gens = g2;
                 }
                 Err(e) => return Err(Failure::new("C12:roundtrip-decode", format!("deserialize(serialize(gens)) failed: {:?}", e), desc(format!("step {}", step)))),
+            }
+        }
+        if let Some((at, pl)) = lower_at {
+            if at == step {
+                gens.party_capacity = pl;
+                parties = pl;
+                col.class("party-capacity-lowered");
             }
         }
         // views: the full one, empty ones, and generated ones
@@ -383,6 +394,21 @@ fn static_checks<G: CurveTag>(col: &mut Collector, count: usize, beyond_u16: boo
             }
         }
         col.class("deep-chain(>2^17)");
+        if count > 64 && G::CURVE == Curve::Zorro {
+            // growing an object that already holds more than 2^18 generators (thorough tier, one curve)
+            let (d1, d2) = (262_144 + 9, 262_144 + 40);
+            let e2g = refgens::gens_uncached::<G>(b'G', 0, d2);
+            let e2h = refgens::gens_uncached::<G>(b'H', 0, d2);
+            let mut big = BulletproofGens::<G>::new(d1, 1);
+            big.increase_capacity(d2);
+            let gg: Vec<G> = big.G(d2, 1).cloned().collect();
+            let hh: Vec<G> = big.H(d2, 1).cloned().collect();
+            col.evals_add(2);
+            if let Some(i) = (0..d2).find(|i| gg.get(*i) != Some(&e2g[*i]) || hh.get(*i) != Some(&e2h[*i])) {
+                out.push(Failure::new("C12:deep-chain-value", format!("new({}, 1) + increase_capacity({}): generator {} differs from the history-free derivation", d1, d2, i), what(&format!("index {}", i))));
+            }
+            col.class("deep-chain(>2^18)");
+        }
     }
     // one call that makes more than 2^20 generators over a party count that is not a multiple of 8
     // (thorough tier, one curve): any internal partitioning of the work must not show
